@@ -18,6 +18,8 @@ modified-collections set).
         (same location class), under the status value the forward branch leaves behind (constant propagation of
         `_status_` into the closure's tests); a key-index mutation may instead be paired, in the same block, with an append
         to an undo list that the closure (or the caller's closure) replays.
+ SNAP   an undo closure restores from snapshots: a variable it reads is not a live alias (`v = setdata.added`) of a container the
+        forward code mutates in place afterwards.
  STALE  an undo closure reads no variable that the forward code assigns inside a loop (it would see the value of the
         last iteration, not of the item it is undoing) unless the closure's own loop rebinds it.
 """
@@ -239,6 +241,38 @@ def check_function(ctx, f, creates, only_cover_locs=None, prefix='C13'):
         ctx.ob(prefix + '-STALE.closure-reads-no-loop-variant-variable', f, c.node, not stale,
                '' if not stale else 'closure %s reads %s, which the forward loop reassigns per item: when undoing it sees the value of the last '
                'iteration (its own loop does not rebind it)' % (c.name, stale), expected='unpack the value saved per item in the undo list')
+        # ---------------------------------------------------------- SNAP
+        # what the closure restores from must be a snapshot, not a live reference: a variable the closure reads that was bound to a bare
+        # attribute of session state (`old_added = setdata.added`) aliases a container which the forward code goes on to mutate in place
+        # (`added |= to_add`); the "restore" then puts the mutated container back
+        MUT_METHODS = {'add', 'update', 'discard', 'remove', 'clear', 'append', 'extend', 'pop', 'difference_update', 'intersection_update'}
+        binds = {}
+        for st in walk_no_nested(f.node):
+            if not isinstance(st, ast.Assign): continue
+            for t in st.targets:
+                pairs_ = list(zip(t.elts, st.value.elts)) if isinstance(t, ast.Tuple) and isinstance(st.value, ast.Tuple) and len(t.elts) == len(st.value.elts) else [(t, st.value)]
+                for tt, vv in pairs_:
+                    if isinstance(tt, ast.Name) and isinstance(vv, ast.Attribute) and dotted(vv): binds.setdefault(tt.id, []).append((dotted(vv), st))
+        mutated = {}        # location text -> statement that mutates it in place
+        for st in walk_no_nested(f.node):
+            if isinstance(st, ast.AugAssign) and isinstance(st.op, (ast.BitOr, ast.Sub, ast.BitAnd, ast.Add)):
+                tgt = dotted(st.target)
+                for loc in ([tgt] if tgt and '.' in tgt else [l for l, _ in binds.get(tgt, [])]): mutated.setdefault(loc, st)
+            if isinstance(st, ast.Expr) and isinstance(st.value, ast.Call) and isinstance(st.value.func, ast.Attribute) and st.value.func.attr in MUT_METHODS:
+                tgt = dotted(st.value.func.value)
+                for loc in ([tgt] if tgt and '.' in tgt else [l for l, _ in binds.get(tgt or '', [])]): mutated.setdefault(loc, st)
+        # names the closure uses as the VALUE it restores (right-hand side of a store into session state), not as a handle it operates on
+        restored = set()
+        for st in ast.walk(c.node):
+            if isinstance(st, ast.Assign) and any(isinstance(t, (ast.Attribute, ast.Subscript, ast.Tuple)) for t in st.targets):
+                for v_ in ([st.value] + (list(st.value.elts) if isinstance(st.value, ast.Tuple) else [])):
+                    if isinstance(v_, ast.Name): restored.add(v_.id)
+        aliased = [(v, loc, st) for v in sorted(free & restored) for loc, st in binds.get(v, []) if loc in mutated and mutated[loc].lineno > st.lineno]
+        ctx.ob(prefix + '-SNAP.closure-restores-from-a-copy', f, c.node, not aliased,
+               '' if not aliased else 'closure %s restores from `%s`, which was bound to the live container `%s` (line %d) that the forward code mutates in place afterwards '
+               '(`%s`, line %d): undoing puts the already-changed container back, so pending changes of the failed call survive' %
+               (c.name, aliased[0][0], aliased[0][1], aliased[0][2].lineno, norm(mutated[aliased[0][1]]), mutated[aliased[0][1]].lineno),
+               expected='%s = set(%s) (a copy) when it is not None' % (aliased[0][0], aliased[0][1]) if aliased else '')
     cover_rule(ctx, f, g, closures, has_param, None, prefix)
 
 
@@ -334,6 +368,7 @@ def none_guard_ok(ctx, f, g, assign):
 
 
 MUTANTS = [
+    dict(id='C13-sn1', file='pony/orm/core.py', fn='Set.__set__', old="            old_added = None if setdata.added is None else set(setdata.added)\n            old_removed = None if setdata.removed is None else set(setdata.removed)\n", new="            old_added, old_removed = setdata.added, setdata.removed\n", expect='C13-SNAP'),
     dict(id='C13-m1', file='pony/orm/core.py', fn='Entity._delete_', old='is_recursive_call = undo_funcs is not None', new='is_recursive_call = bool(undo_funcs)', expect='C13-NONE'),
     dict(id='C13-m2', file='pony/orm/core.py', fn='Entity._delete_', old='        if not is_recursive_call: undo_funcs = []', new='        undo_funcs = undo_funcs or []', expect='C13-NONE'),
     dict(id='C13-m3', file='pony/orm/core.py', fn='Set.reverse_add', old='        undo_funcs.append(undo_func)\n', new='', expect='C13-REG'),
